@@ -191,12 +191,19 @@ class SmtpSession(object):
         self.envelope.parse(data)
 
         results = self.handoff(self.envelope)
-        if isinstance(results[0][1], QueueError):
+        # Queue policies may have split the message: it is only accepted if
+        # every one of the resulting envelopes was.
+        failure = results[0][1]
+        for _, result in results:
+            if isinstance(result, (QueueError, RelayError)):
+                failure = result
+                break
+        if isinstance(failure, QueueError):
             default_reply = Reply('451', '4.3.0 Error queuing message')
-            queue_reply = getattr(results[0][1], 'reply', default_reply)
+            queue_reply = getattr(failure, 'reply', default_reply)
             reply.copy(queue_reply)
-        elif isinstance(results[0][1], RelayError):
-            relay_reply = results[0][1].reply
+        elif isinstance(failure, RelayError):
+            relay_reply = failure.reply
             reply.copy(relay_reply)
         else:
             reply.message = '2.6.0 Message accepted for delivery'
